@@ -25,7 +25,11 @@ Text(e, r, v) == IF e = "{}" THEN "{ // {" \o r \o ": " \o v \o "}\n}"
                  ELSE e \o " // {" \o r \o ": " \o v \o "}"
 \* references without annotation, to be used as added types with names that are not there
 Bare == {"{\n  \"p\": @I | @S\n}", "[\n  @I | @S\n]", "{\n  @k: 1\n}", "@k | @s", "{} // {or: [{type: \"object\"}, {type: \"string\"}]}",
-         "[] // {or: [{type: \"array\"}, {type: \"string\"}]}", "{ // {allOf: [\"@a\", \"@a\"]}\n}"}
+         "[] // {or: [{type: \"array\"}, {type: \"string\"}]}", "{ // {allOf: [\"@a\", \"@a\"]}\n}",
+         \* inline comments inside the lists of a multi-line annotation: before the first item, after the last, in an empty list
+         "\"a\" /* {enum: [ // c0\n \"a\", // c1\n \"b\" // c2\n]} */", "1 /* {enum: [ // only a comment\n]} */",
+         "1 /* {enum: [\n 1 // one\n , 2\n // last\n]} */", "1 /* {or: [ // c0\n \"integer\", // c1\n \"string\"\n]} */",
+         "{ /* {allOf: [ // c0\n \"@a\" // c1\n]} */\n}", "1 /* {or: [ // c0\n {type: \"integer\"} // c1\n]} */"}
 
 VARIABLES e, r, v, k
 Init == \/ e \in Examples /\ r \in Rules /\ v \in Values /\ k \in Wraps
